@@ -9,6 +9,7 @@ import (
 	"path/filepath"
 	"sort"
 	"strings"
+	"syscall"
 	"testing"
 	"time"
 
@@ -21,12 +22,12 @@ import (
 // C16 — the CLI is a faithful front end with a truthful exit status (differential against the library, child processes).
 
 type c16Case struct {
-	Sub     string        `json:"sub"` // output mkdir verify template version <other>
-	Args    []string      `json:"args"`
-	Doc     []byte        `json:"doc"`
-	Input   string        `json:"input"`  // stdin | file | dash | missing | dir
-	Stdout  string        `json:"stdout"` // pipe | devfull | closed
-	Pre     []ops.FSEntry `json:"pre,omitempty"`
+	Sub    string        `json:"sub"` // output mkdir verify template version <other>
+	Args   []string      `json:"args"`
+	Doc    []byte        `json:"doc"`
+	Input  string        `json:"input"`  // stdin | file | dash | missing | dir
+	Stdout string        `json:"stdout"` // pipe | devfull | closed
+	Pre    []ops.FSEntry `json:"pre,omitempty"`
 	// what the command line means, filled in by the generator (the oracle's reading of the documented flags)
 	Usage   string   `json:"usage,omitempty"` // non-empty: the command line is invalid for this reason
 	Format  string   `json:"format,omitempty"`
@@ -79,6 +80,29 @@ func runCLI(c c16Case) cliResult {
 		args = append(args, "--file", filepath.Join(base, "work", "no-such.md"))
 	case "dir":
 		args = append(args, "-f", filepath.Join(base, "work"))
+	case "devstdin":
+		args = append(args, "--file", "/dev/stdin")
+	case "fifo":
+		// a named pipe: readable, but its size is 0 and it cannot be re-read
+		fifo := filepath.Join(base, "work", "doc.fifo")
+		if err := syscall.Mkfifo(fifo, 0o644); err != nil {
+			return cliResult{infra: "mkfifo: " + err.Error()}
+		}
+		args = append(args, "--file", fifo)
+		go func(doc []byte) {
+			f, err := os.OpenFile(fifo, os.O_WRONLY, 0)
+			if err != nil {
+				return
+			}
+			f.Write(doc)
+			f.Close()
+		}(append([]byte{}, c.Doc...))
+		defer func() {
+			// release the writer goroutine if the CLI never opened the pipe
+			if f, err := os.OpenFile(fifo, os.O_RDONLY|syscall.O_NONBLOCK, 0); err == nil {
+				f.Close()
+			}
+		}()
 	}
 	ctx, cancel := context.WithTimeout(context.Background(), 30*time.Second)
 	defer cancel()
@@ -240,6 +264,7 @@ func c16Check(c c16Case) string {
 	strip := func(m map[string]string) string {
 		m2 := stripMtime(m)
 		delete(m2, "work/doc.md")
+		delete(m2, "work/doc.fifo")
 		return snapString(m2)
 	}
 	if a, b := strip(cli.after), strip(lib.After); a != b && (lib.Err.Nil || !c.Massive) {
@@ -262,7 +287,7 @@ func firstLine(s string) string {
 
 func c16Gen() *rapid.Generator[c16Case] {
 	return rapid.Custom(func(t *rapid.T) c16Case {
-		c := c16Case{Stdout: "pipe", Input: rapid.SampledFrom([]string{"stdin", "stdin", "file", "file", "dash", "missing", "dir"}).Draw(t, "input")}
+		c := c16Case{Stdout: "pipe", Input: rapid.SampledFrom([]string{"stdin", "stdin", "file", "file", "dash", "missing", "dir", "devstdin", "fifo"}).Draw(t, "input")}
 		c.Sub = rapid.SampledFrom([]string{"output", "output", "o", "out", "mkdir", "mkdir", "m", "verify", "verify", "vf", "template", "t", "tmpl", "version", "v", "frobnicate", "outputs", ""}).Draw(t, "sub")
 		names := sampled(validElemPool())
 		hostile := rapid.IntRange(0, 5).Draw(t, "hostile") == 0
@@ -301,9 +326,12 @@ func c16Gen() *rapid.Generator[c16Case] {
 			if c.Format != "" {
 				c.Args = append(c.Args, "--format", c.Format)
 			}
-			if rapid.IntRange(0, 3).Draw(t, "massive") == 0 {
-				c.Args = append(c.Args, rapid.SampledFrom([]string{"--massive", "-m"}).Draw(t, "mflag"))
+			switch rapid.IntRange(0, 7).Draw(t, "massive") {
+			case 0, 1:
+				c.Args = append(c.Args, rapid.SampledFrom([]string{"--massive", "-m", "--massive=true"}).Draw(t, "mflag"))
 				c.Massive = true
+			case 2:
+				c.Args = append(c.Args, rapid.SampledFrom([]string{"--massive=false", "-m=false"}).Draw(t, "mflag"))
 			}
 			switch rapid.IntRange(0, 7).Draw(t, "timeout") {
 			case 0:
@@ -316,9 +344,11 @@ func c16Gen() *rapid.Generator[c16Case] {
 			c.Stdout = rapid.SampledFrom([]string{"pipe", "pipe", "pipe", "devfull", "closed"}).Draw(t, "stdout")
 		case "mkdir", "m":
 			if rapid.Bool().Draw(t, "dry") || hostile {
-				c.Args = append(c.Args, rapid.SampledFrom([]string{"--dry-run", "-d"}).Draw(t, "dflag"))
+				c.Args = append(c.Args, rapid.SampledFrom([]string{"--dry-run", "-d", "--dry-run=true", "-d=true"}).Draw(t, "dflag"))
 				c.DryRun = true
 				c.Stdout = rapid.SampledFrom([]string{"pipe", "pipe", "devfull"}).Draw(t, "stdout")
+			} else if rapid.IntRange(0, 3).Draw(t, "explicitFalse") == 0 {
+				c.Args = append(c.Args, rapid.SampledFrom([]string{"--dry-run=false", "-d=false"}).Draw(t, "dflag"))
 			}
 			// the flag parser (urfave/cli StringSliceFlag) splits values at commas and trims blanks, and an empty value is
 			// dropped; such extensions cannot be expressed on the command line
@@ -338,9 +368,12 @@ func c16Gen() *rapid.Generator[c16Case] {
 				c.Pre = []ops.FSEntry{{Path: f[0].Name, Kind: "d"}}
 			}
 		case "verify", "vf":
-			if rapid.Bool().Draw(t, "strict") {
-				c.Args = append(c.Args, "--strict")
+			switch rapid.IntRange(0, 4).Draw(t, "strict") {
+			case 0, 1:
+				c.Args = append(c.Args, rapid.SampledFrom([]string{"--strict", "--strict=true"}).Draw(t, "sflag"))
 				c.Strict = true
+			case 2:
+				c.Args = append(c.Args, "--strict=false")
 			}
 			drop := map[int]bool{}
 			for _, d := range rapid.SliceOfN(rapid.IntRange(0, f.Count()-1), 0, 2).Draw(t, "drop") {
@@ -394,7 +427,13 @@ func c16Gen() *rapid.Generator[c16Case] {
 		}
 		// hostile names may only reach a real mkdir inside the library's jail via the chroot worker; keep them to dry runs
 		if hostile && (c.Sub == "mkdir" || c.Sub == "m") && !c.DryRun {
-			c.Args = append(c.Args, "--dry-run")
+			var kept []string
+			for _, a := range c.Args {
+				if a != "--dry-run=false" && a != "-d=false" {
+					kept = append(kept, a)
+				}
+			}
+			c.Args = append(kept, "--dry-run")
 			c.DryRun = true
 		}
 		return c
@@ -413,7 +452,9 @@ func c16Record(col *collector, c c16Case) {
 		cl = append(cl, "massive")
 	}
 	col.eval(c.Usage != "" || len(c.Args) > 0 || c.Stdout != "pipe" || c.Input == "missing" || c.Input == "dir", hash64(fmt.Sprint(c.Sub, c.Args, c.Input, c.Stdout, c.Pre), string(c.Doc)), cl...)
-	col.sample(func() any { return map[string]any{"argv": append([]string{c.Sub}, c.Args...), "input": c.Input, "stdout": c.Stdout, "doc": truncate(string(c.Doc), 150)} })
+	col.sample(func() any {
+		return map[string]any{"argv": append([]string{c.Sub}, c.Args...), "input": c.Input, "stdout": c.Stdout, "doc": truncate(string(c.Doc), 150)}
+	})
 }
 
 func TestC16Random(t *testing.T) {
